@@ -19,6 +19,7 @@ reconnect point is, by design, where chunk boundaries matter (`reconnect_drops_r
 -/
 import LimnoriaModel.C11.Lemmas
 import LimnoriaModel.C11.Utf8
+import LimnoriaModel.C11.Multi
 namespace C11
 open Py
 
